@@ -256,3 +256,376 @@ package resolve
 //@   at call mergePhase: assert {merge.after.load} g_loaded
 //@   at call responseCacheFlush: assert {flush.unlocked} !held(l.dataBuffer.mu)
 //@   modifies *, count(*)
+
+// ----------------------------------------------------------------------------------------------
+// C02: response rendering — path stack safety, scalar kind checks, null bubbling guards
+
+//@ decl stable Resolvable.ctx by Resolvable.Init, Resolvable.InitSubscription, Resolvable.Reset
+//@ decl stable Resolvable.astjsonArena by NewResolvable, Resolvable.Reset, Resolvable.Init, Resolvable.InitSubscription
+//@ decl stable Resolvable.authorization by Resolvable.SetFieldAuthorization, Resolvable.Reset, Resolvable.Init, Resolvable.InitSubscription
+
+// The response plan is read-only for package resolve (no function of the package stores to these
+// fields; the planner/postprocessor that build the plan run before execution).
+//@ decl stable Object.Fields
+//@ decl stable Object.Path
+//@ decl stable Object.Nullable
+//@ decl stable Array.Path
+//@ decl stable Array.Nullable
+//@ decl stable Array.Item
+//@ decl stable Array.SkipItem
+//@ decl stable Field.Value
+//@ decl stable Field.Info
+//@ decl stable Field.Name
+//@ decl stable String.Path
+//@ decl stable String.Nullable
+//@ decl stable Boolean.Path
+//@ decl stable Boolean.Nullable
+//@ decl stable Integer.Path
+//@ decl stable Integer.Nullable
+//@ decl stable Float.Path
+//@ decl stable Float.Nullable
+//@ decl stable BigInt.Path
+//@ decl stable BigInt.Nullable
+//@ decl stable Scalar.Path
+//@ decl stable Scalar.Nullable
+//@ decl stable Enum.Path
+//@ decl stable Enum.Nullable
+//@ decl stable CustomNode.Path
+//@ decl stable CustomNode.Nullable
+//@ decl funcfield Array.SkipItem pure
+//@ decl stableelems *Field
+//@ decl stable Resolvable.typeNameStats by Resolvable.initCostControl, Resolvable.Reset, NewResolvable
+//@ decl stable Resolvable.options by NewResolvable
+
+//@ spec isFieldValue(n Node) bool
+
+//@ spec jnull(v *astjson.Value) bool = v == nil || jtype(global(jver), v) == astjson.TypeNull
+//@ spec rendering(r *Resolvable) bool = r.enableRender && (!r.deferMode || r.enableDeferRender)
+//@ spec pathOK(p []string) bool = p == nil || len(p) >= 1
+
+// plan accessors (interface Node) and renderer hooks
+//@ func Node.NodeKind
+//@   pure
+//@   trusted plan accessor
+//@ func Node.NodePath
+//@   ensures isFieldValue(recv) ==> len(result) >= 1
+//@   pure
+//@   trusted plan accessor; plan invariant: the value node of an object field is keyed by a non-empty path
+//@ func Node.NodeNullable
+//@   pure
+//@   trusted plan accessor
+//@ func CustomResolve.Resolve
+//@   modifies global(ext)
+//@   trusted interface method, implementations are outside package resolve
+//@ func FieldValueRenderer.RenderFieldValue
+//@   modifies global(ext)
+//@   emits ioWrite
+//@   trusted interface method, implementations are outside package resolve
+
+//@ func Resolvable.render
+//@   requires r != nil
+//@   ensures result <==> rendering(r)
+//@   pure
+//@   safety nil
+
+//@ func Resolvable.err
+//@   ensures result
+//@   pure
+
+//@ func Resolvable.printBytes
+//@   requires r != nil
+//@   modifies r.printErr, global(ext), count(ioWrite)
+//@   emits printed
+
+//@ func Resolvable.printNode
+//@   requires r != nil
+//@   modifies r.printErr, r.marshalBuf, elems(r.marshalBuf), global(ext), count(ioWrite)
+//@   emits printed
+
+//@ func Resolvable.renderFieldPath
+//@   pure
+//@   trusted renders r.path into a string using pooled buffers; reads only
+
+//@ func Resolvable.renderFieldValue
+//@   requires r != nil
+//@   modifies r.printErr, global(ext), count(ioWrite)
+//@   emits printed
+
+//@ func Resolvable.renderScalarFieldValue
+//@   requires r != nil
+//@   modifies r.printErr, r.marshalBuf, elems(r.marshalBuf), global(ext), count(ioWrite), count(printed)
+
+//@ func Resolvable.renderScalarFieldBytes
+//@   requires r != nil
+//@   modifies r.printErr, global(ext), count(ioWrite), count(printed)
+
+//@ func Resolvable.renderEnumValue
+//@   requires r != nil
+//@   modifies r.printErr, r.marshalBuf, elems(r.marshalBuf), global(ext), count(ioWrite), count(printed)
+
+//@ func Resolvable.pushArrayPathElement
+//@   requires r != nil
+//@   ensures len(r.path) == old(len(r.path)) + 1
+//@   modifies r.path, elems(r.path)
+//@   safety nil
+
+//@ func Resolvable.popArrayPathElement
+//@   requires r != nil && len(r.path) >= 1
+//@   ensures len(r.path) == old(len(r.path)) - 1
+//@   modifies r.path
+//@   safety nil
+
+//@ func Resolvable.pushNodePathElement
+//@   requires r != nil
+//@   ensures len(r.path) == old(len(r.path)) + len(path)
+//@   modifies r.path, elems(r.path), r.depth
+//@   safety nil
+//@   loop 0:
+//@     invariant 0 <= i && i <= len(path) && len(r.path) == old(len(r.path)) + i
+//@     invariant arr(r.path) == old(arr(r.path)) || fresh(r.path)
+//@     decreases len(path) - i
+
+//@ func Resolvable.popNodePathElement
+//@   requires r != nil && len(r.path) >= len(path)
+//@   ensures len(r.path) == old(len(r.path)) - len(path)
+//@   modifies r.path, r.depth
+//@   safety nil
+
+//@ func Resolvable.ensureErrorsInitialized
+//@   requires r != nil
+//@   ensures r.errors != nil
+//@   modifies r.errors
+//@   safety nil
+
+//@ func Resolvable.addError
+//@   requires r != nil
+//@   ensures {stack.restored} len(r.path) == old(len(r.path))
+//@   modifies r.path, elems(r.path), r.depth, r.errors, global(jver), count(errorAdded)
+
+//@ func Resolvable.addErrorWithCode
+//@   requires r != nil
+//@   modifies r.errors, global(jver), count(errorAdded)
+
+//@ func Resolvable.addErrorWithCodeAndPath
+//@   requires r != nil
+//@   ensures {stack.restored} len(r.path) == old(len(r.path))
+//@   modifies r.path, elems(r.path), r.depth, r.errors, global(jver), count(errorAdded)
+
+//@ func Resolvable.addValueCompletion
+//@   requires r != nil
+//@   modifies r.valueCompletion, global(jver), global(ext), count(errorAdded)
+//@   trusted effect summary: appends one value-completion entry
+
+//@ func Resolvable.renderApolloCompatibleNonNullableErrorMessage
+//@   pure
+//@   trusted message formatting; reads r.path only
+
+//@ func Resolvable.addNonNullableFieldError
+//@   requires r != nil
+//@   assumes pathOK(fieldPath)
+//@   ensures {stack.restored} len(r.path) == old(len(r.path))
+//@   modifies *, count(errorAdded)
+
+//@ func Resolvable.walkNull
+//@   requires r != nil
+//@   ensures !result
+//@   ensures {prints.null.when.rendering} old(rendering(r)) ==> count(printed) == old(count(printed)) + 1
+//@   ensures {silent.in.prewalk} !old(rendering(r)) ==> count(printed) == old(count(printed))
+//@   modifies r.printErr, global(ext), count(printed), count(ioWrite)
+//@   safety nil
+
+//@ func Resolvable.walkString
+//@   requires r != nil
+//@   let v = jget(global(jver), value, s.Path)
+//@   let isnull = jnull(v)
+//@   let kindok = jtype(global(jver), v) == astjson.TypeString
+//@   let nullable = s.Nullable
+//@   ensures {null.bubbles.iff.nonnull} isnull ==> (result <==> !nullable)
+//@   ensures {wrong.kind.rejected} !isnull && !kindok ==> result
+//@   ensures {right.kind.accepted} !isnull && kindok ==> !result
+//@   ensures {stack.restored} len(r.path) == old(len(r.path))
+//@   modifies *, count(*)
+
+//@ func Resolvable.walkBoolean
+//@   requires r != nil
+//@   let v = jget(global(jver), value, b.Path)
+//@   let isnull = jnull(v)
+//@   let kindok = jtype(global(jver), v) == astjson.TypeTrue || jtype(global(jver), v) == astjson.TypeFalse
+//@   let nullable = b.Nullable
+//@   ensures {null.bubbles.iff.nonnull} isnull ==> (result <==> !nullable)
+//@   ensures {wrong.kind.rejected} !isnull && !kindok ==> result
+//@   ensures {right.kind.accepted} !isnull && kindok ==> !result
+//@   ensures {stack.restored} len(r.path) == old(len(r.path))
+//@   modifies *, count(*)
+
+//@ func Resolvable.walkInteger
+//@   requires r != nil
+//@   let v = jget(global(jver), value, i.Path)
+//@   let isnull = jnull(v)
+//@   let kindok = jtype(global(jver), v) == astjson.TypeNumber
+//@   let integral = jintegral(global(jver), v)
+//@   let nullable = i.Nullable
+//@   ensures {null.bubbles.iff.nonnull} isnull ==> (result <==> !nullable)
+//@   ensures {wrong.kind.rejected} !isnull && !kindok ==> result
+//@   ensures {right.kind.accepted} !isnull && kindok && integral ==> !result
+//@   ensures {non.integral.number.rejected} !isnull && kindok && !integral ==> result
+//@   ensures {stack.restored} len(r.path) == old(len(r.path))
+//@   modifies *, count(*)
+
+// walkFloat checks the kind in the pre-walk only; the render walk runs on validated data
+//@ func Resolvable.walkFloat
+//@   requires r != nil
+//@   let v = jget(global(jver), value, f.Path)
+//@   let isnull = jnull(v)
+//@   let kindok = jtype(global(jver), v) == astjson.TypeNumber
+//@   let rend = rendering(r)
+//@   let nullable = f.Nullable
+//@   ensures {null.bubbles.iff.nonnull} isnull ==> (result <==> !nullable)
+//@   ensures {wrong.kind.rejected} !rend && !isnull && !kindok ==> result
+//@   ensures {right.kind.accepted} !isnull && kindok ==> !result
+//@   ensures {stack.restored} len(r.path) == old(len(r.path))
+//@   modifies *, count(*)
+
+//@ func Resolvable.walkBigInt
+//@   requires r != nil
+//@   let v = jget(global(jver), value, b.Path)
+//@   let isnull = jnull(v)
+//@   let nullable = b.Nullable
+//@   ensures {null.bubbles.iff.nonnull} isnull ==> (result <==> !nullable)
+//@   ensures {any.value.accepted} !isnull ==> !result
+//@   ensures {stack.restored} len(r.path) == old(len(r.path))
+//@   modifies *, count(*)
+
+//@ func Resolvable.walkScalar
+//@   requires r != nil
+//@   let v = jget(global(jver), value, s.Path)
+//@   let isnull = jnull(v)
+//@   let nullable = s.Nullable
+//@   ensures {null.bubbles.iff.nonnull} isnull ==> (result <==> !nullable)
+//@   ensures {any.value.accepted} !isnull ==> !result
+//@   ensures {stack.restored} len(r.path) == old(len(r.path))
+//@   modifies *, count(*)
+
+//@ func Resolvable.walkEnum
+//@   requires r != nil
+//@   let v = jget(global(jver), value, e.Path)
+//@   let isnull = jnull(v)
+//@   let kindok = jtype(global(jver), v) == astjson.TypeString
+//@   let nullable = e.Nullable
+//@   ensures {null.bubbles.iff.nonnull} isnull ==> (result <==> !nullable)
+//@   ensures {wrong.kind.rejected} !isnull && !kindok ==> result
+//@   ensures {stack.restored} len(r.path) == old(len(r.path))
+//@   modifies *, count(*)
+
+//@ func Resolvable.walkCustom
+//@   requires r != nil
+//@   let v = jget(global(jver), value, c.Path)
+//@   let isnull = jnull(v)
+//@   let nullable = c.Nullable
+//@   ensures {null.bubbles.iff.nonnull} isnull ==> (result <==> !nullable)
+//@   ensures {stack.restored} len(r.path) == old(len(r.path))
+//@   modifies *, count(*)
+
+//@ func Resolvable.walkStaticString
+//@   requires r != nil
+//@   ensures !result
+//@   ensures {stack.restored} len(r.path) == old(len(r.path))
+//@   modifies r.printErr, global(ext), count(printed), count(ioWrite)
+
+//@ func Resolvable.walkEmptyObject
+//@   requires r != nil
+//@   ensures !result
+//@   ensures old(rendering(r)) ==> count(printed) == old(count(printed)) + 2
+//@   modifies r.printErr, global(ext), count(printed), count(ioWrite)
+
+//@ func Resolvable.walkEmptyArray
+//@   requires r != nil
+//@   ensures !result
+//@   ensures old(rendering(r)) ==> count(printed) == old(count(printed)) + 2
+//@   modifies r.printErr, global(ext), count(printed), count(ioWrite)
+
+//@ func Resolvable.walkNode
+//@   requires r != nil
+//@   ensures {stack.restored} len(r.path) == old(len(r.path))
+//@   modifies *, count(*)
+
+//@ func Resolvable.walkUnreachedItem
+//@   requires r != nil
+//@   ensures {stack.restored} len(r.path) == old(len(r.path))
+//@   modifies *, count(*)
+
+//@ func Resolvable.walkUnreachedFields
+//@   requires r != nil
+//@   ensures {stack.restored} len(r.path) == old(len(r.path))
+//@   modifies *, count(*)
+//@   loop 0:
+//@     invariant len(r.path) == old(len(r.path))
+
+//@ func Resolvable.emitUnreachedFieldDeny
+//@   requires r != nil
+//@   assumes r.authorization != nil
+//@   ensures {stack.restored} len(r.path) == old(len(r.path))
+//@   modifies *, count(*)
+
+//@ func Resolvable.addRejectFieldError
+//@   requires r != nil
+//@   ensures {stack.restored} len(r.path) == old(len(r.path))
+//@   modifies r.path, elems(r.path), r.depth, r.errors, global(jver), global(ext), count(errorAdded)
+//@   trusted effect summary: appends one authorization error carrying the field's response path
+
+//@ func Resolvable.renderInaccessibleEnumValueError
+//@   requires r != nil
+//@   ensures {stack.restored} len(r.path) == old(len(r.path))
+//@   modifies r.path, elems(r.path), r.depth, r.errors, r.valueCompletion, global(jver), global(ext), count(errorAdded)
+//@   trusted effect summary: reports one error / value completion for an inaccessible enum value
+
+//@ func Resolvable.walkObject
+//@   requires r != nil
+//@   ensures {stack.restored} len(r.path) == old(len(r.path))
+//@   modifies *, count(*)
+//@   trusted (for now) 170-line function with deferred closures and defer-mode rendering; contract pending
+
+// walkArray: callee preconditions of astjson (SetNull needs a non-empty path), null bubbling guards,
+// path stack restored on every path
+//@ func Resolvable.walkArray
+//@   requires r != nil
+//@   assumes pathOK(arr.Path)
+//@   assumes r.options.EnableCostControl ==> r.typeNameStats != nil
+//@   ghost var g_itemNullable bool = false
+//@   ghost var g_itemIsContainer bool = false
+//@   at call Node.NodeNullable: ghost g_itemNullable = result
+//@   at call Node.NodeKind: ghost g_itemIsContainer = result == NodeKindObject || result == NodeKindArray
+//@   at call SetNull: assert {array.nulled.only.if.nullable} arr.Nullable
+//@   at call SetArrayItem: assert {item.nulled.only.if.nullable.container} g_itemNullable && g_itemIsContainer
+//@   ensures {stack.restored} len(r.path) == old(len(r.path))
+//@   modifies *, count(*)
+//@   loop 0:
+//@     invariant len(r.path) == old(len(r.path)) + len(arr.Path)
+//@   loop 1:
+//@     invariant len(r.path) == old(len(r.path)) + len(arr.Path)
+
+//@ func Resolvable.walkFields
+//@   requires r != nil && obj != nil
+//@   assumes forall k in 0..len(obj.Fields) :: obj.Fields[k] != nil && isFieldValue(obj.Fields[k].Value)
+//@   at call SetNull: assert {null.only.in.prewalk} !rendering(r)
+//@   ensures {stack.restored} len(r.path) == old(len(r.path))
+//@   modifies *, count(*)
+//@   loop 0:
+//@     invariant len(r.path) == old(len(r.path))
+
+//@ func Resolvable.authorizeField
+//@   requires r != nil
+//@   assumes field != nil && (field.Info != nil ==> len(field.Info.Source.Names) == len(field.Info.Source.IDs))
+//@   ensures {stack.restored} len(r.path) == old(len(r.path))
+//@   ensures {mode.unchanged} r.enableRender == old(r.enableRender) && r.deferMode == old(r.deferMode) && r.enableDeferRender == old(r.enableDeferRender)
+//@   modifies *, count(*)
+
+//@ func Resolvable.shouldSkipFieldByTypeCondition
+//@   pure
+//@   trusted type-condition filter; reads r.typeNames and the plan only
+
+//@ func Resolvable.recordFieldReached
+//@   requires r != nil
+//@   ensures {stack.restored} len(r.path) == old(len(r.path))
+//@   modifies *
+//@   trusted bookkeeping for the unreached-field authorization walk; does not touch the path stack
